@@ -4,6 +4,7 @@ pub mod clock;
 pub mod evidence;
 pub mod ilv;
 pub mod inner;
+pub mod nest;
 pub mod seq;
 pub mod svcx;
 pub mod world;
